@@ -13,7 +13,7 @@ import common as C
 from props import qtycommon as Q
 
 ID = "C12"
-COQ_TARGETS = ["Properties/C12.vo"]
+COQ_TARGETS = ["Properties/C12.vo", "GenFacts/EvalSrcFacts.vo"]
 MODEL_TARGETS = ["Model/Arrays.vo"]
 IMPORTS = "From Ka Require Import Model.Num Model.Qty Model.Arrays.\nOpen Scope string_scope.\n"
 TOL = 1e-9
